@@ -379,6 +379,7 @@ type vHist struct {
 	heldMsg  *protocol.UDPMessage
 	exp      map[uint32]*sessExp // spec-level expectation: which sessions must be in the table
 	ticksRun int                 // number of sweeper ticks that have fired so far
+	sweeperFromStart bool        // an idleCleanupLoop goroutine exists right after Run started
 	// udpacl
 	e0 *udpSessionEntry
 }
@@ -408,6 +409,15 @@ func (h *vHist) startManager(timeout time.Duration, deny string) {
 		w.mu.Unlock()
 	}()
 	synctest.Wait()
+	// The stimuli that keep a connLock held across virtual time (slowdial, slowlost) rely on knowing when
+	// the sweeper ticks: multiples of the interval after Run started. If the sweeper is not running from
+	// the start (a changed tree), its phase is unknown, a tick could hit the held lock while this
+	// goroutine sleeps and virtual time would freeze — those stimuli then do not hold anything.
+	for _, g := range udpGoroutines() {
+		if g == "idleCleanupLoop" {
+			h.sweeperFromStart = true
+		}
+	}
 }
 
 // drain returns the events logged since the last call.
@@ -665,7 +675,7 @@ func (h *vHist) do(op string) (res vh.Result) {
 		h.learn(m.SessionID, evs, true)
 		res.ModelOp = op + " " + victimOf(before, e)
 		res.Out, res.NonTrivial = h.result(evs, "")
-	case "slowclose":
+	case "slowclose", "expirenew":
 		// The sweeper is parked inside CloseWithErr → conn.Close() of session sid's expired entry (the
 		// entry is closed, its exit function has not run yet) while a complete datagram re-using the id
 		// arrives; then Close() returns. Steps: arm a gate on the session's socket, let virtual time run
@@ -673,18 +683,34 @@ func (h *vHist) do(op string) (res vh.Result) {
 		// deliver the datagram and wait (the sweeper sits on the gate channel, not on a mutex, and the
 		// receive loop takes no connLock for an entry that has a conn), open the gate, wait.
 		// Only the census is compared.
-		if len(f) != 10 {
+		//
+		// `expirenew <target> <msg…>` is the same with the datagram carrying ANOTHER id than the expiring
+		// session <target>: a session registered while the sweep that empties the table is still closing
+		// (nothing is held across time afterwards; the following `sleep` must see it expire like any other).
+		o := 0
+		if f[0] == "expirenew" {
+			o = 1
+		}
+		if len(f) != 10+o {
 			return bad
 		}
-		m, err := parseMsg(f[1:7])
-		if err != nil || !h.setEnv(f[7], f[8], f[9]) {
+		m, err := parseMsg(f[1+o : 7+o])
+		if err != nil || !h.setEnv(f[7+o], f[8+o], f[9+o]) {
 			return bad
+		}
+		tsid := m.SessionID
+		if o == 1 {
+			t64, err := strconv.ParseUint(f[1], 10, 32)
+			if err != nil {
+				return bad
+			}
+			tsid = uint32(t64)
 		}
 		if h.held != nil || h.down {
 			return vh.Result{Out: "busy", ModelOp: op + " ."}
 		}
 		var target *vConn
-		if e := h.lookupEntry(m.SessionID); e != nil {
+		if e := h.lookupEntry(tsid); e != nil {
 			if vc, ok := e.conn.(*vConn); ok && vc != nil {
 				h.w.mu.Lock()
 				if vc.closes == 0 {
@@ -699,7 +725,7 @@ func (h *vHist) do(op string) (res vh.Result) {
 			break
 		}
 		t0 := h.now()
-		lastAct := h.lookupEntry(m.SessionID).Last.Get().Sub(h.w.start)
+		lastAct := h.lookupEntry(tsid).Last.Get().Sub(h.w.start)
 		tk := (time.Duration(int64(lastAct+h.timeout)/int64(vInterval)) + 1) * vInterval
 		if tk <= t0 {
 			tk = (time.Duration(int64(t0)/int64(vInterval)) + 1) * vInterval
@@ -710,7 +736,7 @@ func (h *vHist) do(op string) (res vh.Result) {
 		h.w.mu.Unlock()
 		time.Sleep(tk - t0) // wakes at the same instant as the sweeper's ticker
 		parked := false
-		for i := 0; i < 4000000 && !parked; i++ { // ends as soon as Close() is entered; the bound only guards a changed tree
+		for i := 0; i < 400000 && !parked; i++ { // ends as soon as Close() is entered; the bound only guards a changed tree
 			runtime.Gosched()
 			h.w.mu.Lock()
 			parked = target.closeHeld
@@ -749,7 +775,10 @@ func (h *vHist) do(op string) (res vh.Result) {
 			}
 		}
 		// (if the sweeper was not seen parked — a heavily loaded machine, or a changed tree — the datagram
-		// was not fed; on the unchanged tree the census is the same either way)
+		// was not fed; for slowclose the census on the unchanged tree is the same either way)
+		if parked && tsid != m.SessionID {
+			h.learn(m.SessionID, evs, true) // a datagram of another session at tk
+		}
 		res.ModelOp = op + " " + strings.Join(groups, "/")
 		res.Out, res.NonTrivial = "slowc | "+h.summary(), parked
 	case "slowdial":
@@ -778,7 +807,7 @@ func (h *vHist) do(op string) (res vh.Result) {
 		// whatever the code does with later stamps) and no sweep tick lies strictly between t0 and tk.
 		// Otherwise the op is a plain datagram followed by the same passage of time.
 		gate := make(chan struct{})
-		if h.lookupEntry(m.SessionID) == nil && tk-t0 <= vInterval {
+		if h.sweeperFromStart && h.lookupEntry(m.SessionID) == nil && tk-t0 <= vInterval {
 			h.w.mu.Lock()
 			h.w.dialGate = gate
 			h.w.mu.Unlock()
@@ -1027,7 +1056,7 @@ func (h *vHist) do(op string) (res vh.Result) {
 			gate := make(chan struct{})
 			h.w.mu.Lock()
 			for _, c := range h.w.socks {
-				if c.closes == 0 {
+				if c.closes == 0 && h.sweeperFromStart {
 					c.closeGate = gate
 				}
 			}
@@ -1653,6 +1682,26 @@ func genSession(r *vh.RNG, n int, emit func(op string, tags ...string)) {
 		// override variety live in the udpacl stream of C08)
 		emit(fmt.Sprintf("reset %d .", timeoutMs), "s:reset")
 		total++
+		if r.Chance(1, 12) {
+			// a new session is registered while the sweep that empties the table is still closing; then silence
+			nA := r.Range(1, 3)
+			for i := 0; i < nA; i++ {
+				seq++
+				emit(fmt.Sprintf("msg %d 0 0 1 %s %s K 0 1", i+1, pool[r.Intn(len(pool))], vh.Hex([]byte{byte(seq>>8) | 0x80, byte(seq), 2})), "s:msg")
+			}
+			seq++
+			emit(fmt.Sprintf("expirenew 1 %d 0 0 1 %s %s K 0 1", 7+r.Intn(2), pool[r.Intn(len(pool))], vh.Hex([]byte{byte(seq>>8) | 0x80, byte(seq), 3})), "s:expirenew")
+			emit(fmt.Sprintf("sleep %d", timeoutMs+2000+250*r.Intn(4)), "s:sleep")
+			if r.Chance(1, 2) {
+				seq++
+				emit(fmt.Sprintf("msg 3 0 0 1 %s %s K 0 1", pool[r.Intn(len(pool))], vh.Hex([]byte{byte(seq>>8) | 0x80, byte(seq), 4})), "s:msg")
+				emit(fmt.Sprintf("sleep %d", timeoutMs+1000), "s:sleep")
+				total += 2
+			}
+			emit("connlost", "s:connlost")
+			total += nA + 3
+			continue
+		}
 		if r.Chance(1, 10) {
 			// connection loss racing the sweep: a group of sessions that becomes idle exactly at the next
 			// sweep, a younger group that is not idle, then the loss with slow Close() calls
